@@ -304,6 +304,35 @@ def spd_from_R(R, perm):
     return A
 
 
+def natural_entering_order(A, b):
+    """True iff exact Lawson-Hanson on (A, b) only ever holds passive lists [0, 1, .., k) in this order"""
+    n = len(b)
+    P = []
+    x = [F(0)] * n
+    for _ in range(10 * n + 10):
+        w = [bi - v for bi, v in zip(b, matvec(A, x))]
+        cand = [i for i in range(n) if i not in P and w[i] > 0]
+        if not cand:
+            return True
+        P.append(max(cand, key=lambda i: (w[i], -i)))
+        while True:
+            if P != list(range(len(P))):
+                return False
+            sub = exact_solve([[A[i][j] for j in P] for i in P], [b[i] for i in P])
+            if sub is None:
+                return False
+            z = [F(0)] * n
+            for k, i in enumerate(P):
+                z[i] = sub[k]
+            if all(z[i] > 0 for i in P):
+                x = z
+                break
+            alpha = min(x[i] / (x[i] - z[i]) for i in P if z[i] <= 0)
+            x = [xi + alpha * (zi - xi) for xi, zi in zip(x, z)]
+            P = [i for i in P if x[i] > 0]
+    return False
+
+
 def np_delete_positions(P, dels):
     ds = set(int(d) for d in dels)
     return [v for k, v in enumerate(P) if k not in ds]
@@ -410,16 +439,25 @@ class C05(PropertyCheck):
     exhaustive_note = {
         "quick": "all 2^n sign patterns of the planted unconstrained solution for n<=4 x every P_initial mode; "
                  "settings product use_positive_only_solver x positive_only_uses_p_initial x "
-                 "force_edge_pixels_to_zeros x formalism on every inversion layout",
+                 "force_edge_pixels_to_zeros x formalism on every inversion layout; choldeleteindexes: every "
+                 "non-empty set of positions of a passive list of length <= 5 (sorted, reversed, shuffled)",
         "thorough": "all 2^n sign patterns of the planted unconstrained solution for n<=6 x every P_initial mode; "
-                    "settings product on every inversion layout",
+                    "settings product on every inversion layout; choldeleteindexes: every non-empty set of "
+                    "positions of a passive list of length <= 6 (sorted, reversed, shuffled)",
     }
     trusted_extra = [
-        "modelled, not verified: numpy.linalg.solve, scipy.linalg.solve(assume_a='pos'), scipy.linalg.cholesky/"
-        "cho_solve and the rank-one Cholesky insert/delete of autoarray/util/cholesky_funcs.py — contract "
-        "'returns x with M x = r'; the model instantiates it with exact Gauss-Jordan elimination whose "
-        "result is re-checked (contract proved for the instance); agreement with the float solvers is "
-        "observed by the correspondence at 1e-7",
+        "modelled, not verified: numpy.linalg.solve and scipy.linalg.solve(assume_a='pos') (the unconstrained "
+        "solver and the P_initial guess) — contract 'returns x with M x = r'; the driver instantiates it with "
+        "exact Gauss-Jordan elimination whose result is re-checked (contract proved for the instance)",
+        "the libm square root (math.sqrt / np.sqrt): contract 'sqrt x >= 0 and sqrt x * sqrt x = x for x >= 0' "
+        "(discharged for Real.sqrt). With it the Cholesky bookkeeping of fnnls_cholesky (cholinsertlast, "
+        "choldeleteindexes, _cholupdate of autoarray/util/cholesky_funcs.py, transliterated in "
+        "Model/Cholesky.lean) is PROVED exact and the solve contract is instantiated by the code's own "
+        "passive-set solve (C05.chol_*)",
+        "LAPACK behind scipy.linalg.solve_triangular / cho_solve / cholesky is modelled by its mathematical "
+        "content (forward / back substitution, bordering recursion); the tie is the correspondence of the "
+        "'chol' case family (float model vs real calls at 1e-9 x cond, exact rational model where all roots "
+        "are rational)",
         "IEEE rounding of the implementation (theorems are over ordered fields; comparison at 1e-7 of the "
         "solution scale, KKT oracle with 1e-9 relative slack)",
         "termination of the active-set iteration is not proved (model and code both carry the 10000-iteration "
@@ -513,6 +551,8 @@ class C05(PropertyCheck):
         yield from self._recon_cases(rng, 120 if quick else 1200, nmax)
         # 4. real inversions
         yield from self._inversion_cases(rng, 24 if quick else 220)
+        # 5. the Cholesky bookkeeping of fnnls_cholesky, function by function and in sequence
+        yield from self._chol_cases(rng, quick)
 
     def _solver_case(self, rng, A, b, pm, tag):
         return {"tag": tag, "kind": "solver", "A": qmat(A), "b": qlist(b),
@@ -594,6 +634,161 @@ class C05(PropertyCheck):
             else:
                 yield {"tag": "recon_posonly_empty", "kind": "recon", "fn": "posonly", "A": [], "b": [],
                        "p_initial": rng.random() < 0.5}
+
+    # ------------------------------------------------------------------ Cholesky bookkeeping cases
+    def _chol_seq(self, rng, A, b, inserts, deletes, tag, num="float", first_k=0, dels_as="ndarray"):
+        return {"tag": tag, "kind": "chol", "sub": "seq", "A": qmat(A), "b": qlist(b), "inserts": list(inserts),
+                "deletes": [list(d) for d in deletes], "num": num, "first_k": first_k, "dels_as": dels_as}
+
+    def _chol_cases(self, rng, quick):
+        nmax = 8 if quick else 16
+        # (i) exhaustive: every non-empty set of positions of an m-long passive list, sorted / reversed / shuffled
+        for m in range(1, (5 if quick else 6) + 1):
+            n = m + rng.choice([0, 1])
+            perm = rng.sample(range(n), n)
+            A = spd_from_R(chol_R(rng, n), perm)
+            b = [gen.dyadic(rng, -4, 4, 2) for _ in range(n)]
+            ins = rng.sample(range(n), m)
+            for r in range(1, m + 1):
+                for sub in itertools.combinations(range(m), r):
+                    orders = {tuple(sub), tuple(reversed(sub))}
+                    sh = list(sub)
+                    rng.shuffle(sh)
+                    orders.add(tuple(sh))
+                    for o in sorted(orders):
+                        yield self._chol_seq(rng, A, b, ins, [list(o)], f"chol_seq_all_subsets_m{m}",
+                                             dels_as=rng.choice(["ndarray", "list", "tuple"]))
+        # (ii) random sequences: inserts, then 0..3 delete sets (first / last / several / unsorted / all / none)
+        for _ in range(300 if quick else 3000):
+            n = rng.randint(1, nmax)
+            perm = rng.sample(range(n), n)
+            A = spd_from_R(chol_R(rng, n), perm)
+            b = [gen.dyadic(rng, -4, 4, 2) for _ in range(n)]
+            m = rng.randint(1, n)
+            rational = rng.random() < 0.35
+            ins = perm[:m] if rational else rng.sample(range(n), m)
+            deletes, cur = [], m
+            for _k in range(rng.choice([0, 1, 1, 2, 3])):
+                if cur == 0:
+                    break
+                mode = rng.choice(["last", "first", "one", "some", "some", "suffix", "all", "none"])
+                if rational and mode not in ("none",):
+                    mode = rng.choice(["last", "suffix"])  # a deleted suffix needs no _cholupdate: stays rational
+                if mode == "last":
+                    d = [cur - 1]
+                elif mode == "first":
+                    d = [0]
+                elif mode == "one":
+                    d = [rng.randrange(cur)]
+                elif mode == "suffix":
+                    k = rng.randint(1, cur)
+                    d = list(range(cur - k, cur))
+                    rng.shuffle(d)
+                elif mode == "all":
+                    d = rng.sample(range(cur), cur)
+                elif mode == "none":
+                    d = []
+                else:
+                    d = rng.sample(range(cur), rng.randint(1, cur))
+                deletes.append(d)
+                cur -= len(d)
+            fk = rng.randint(2, m) if (m >= 2 and rng.random() < 0.25) else 0
+            yield self._chol_seq(rng, A, b, ins, deletes,
+                                 f"chol_seq_{'rat' if rational else 'float'}{'_warm' if fk else ''}",
+                                 num="rat" if rational else "float", first_k=fk,
+                                 dels_as=rng.choice(["ndarray", "list", "tuple"]))
+        # (iii) _cholupdate on arbitrary upper-triangular arrays (non-zero diagonal of either sign)
+        for a, bb, c in ((3, 4, 5), (5, 12, 13), (8, 15, 17), (20, 21, 29)):
+            for sc in (F(1), F(1, 4), F(-2)):
+                yield {"tag": "chol_update_rat", "kind": "chol", "sub": "update", "num": "rat",
+                       "U": qmat([[a * sc]]), "x": qlist([bb * sc])}
+        for _ in range(150 if quick else 1500):
+            n = rng.randint(1, nmax)
+            U = chol_R(rng, n)
+            if rng.random() < 0.3:
+                for i in range(n):
+                    if rng.random() < 0.4:
+                        U[i][i] = -U[i][i]
+            x = [F(0) if rng.random() < 0.15 else gen.dyadic(rng, -4, 4, 2) for _ in range(n)]
+            yield {"tag": "chol_update", "kind": "chol", "sub": "update", "num": "float", "U": qmat(U), "x": qlist(x)}
+        # (iv) cholinsertlast on arbitrary upper-triangular arrays: positive / zero / negative Schur complement
+        for _ in range(80 if quick else 600):
+            n = rng.randint(0, nmax - 1)
+            R = chol_R(rng, n + 1)
+            U = [r[:n] for r in R[:n]]
+            G = gram_fr(R)
+            x = [G[n][j] for j in range(n + 1)]  # border of R'R: Schur complement R[n][n]^2, rational root
+            cls = rng.choice(["exact", "exact", "pos", "zero", "neg"])
+            if cls == "pos":
+                x[n] += gen.pos_dyadic(rng, 0, 3, 3)
+            elif cls == "zero":
+                x[n] -= R[n][n] * R[n][n]
+            elif cls == "neg":
+                x[n] -= R[n][n] * R[n][n] + gen.pos_dyadic(rng, 0, 3, 3)
+            yield {"tag": f"chol_insert_{cls}", "kind": "chol", "sub": "insert",
+                   "num": "rat" if cls in ("exact", "neg") else "float", "U": qmat(U), "x": qlist(x)}
+        # (v) choldeleteindexes on arbitrary upper-triangular arrays with positive diagonal
+        for _ in range(70 if quick else 600):
+            n = rng.randint(1, nmax)
+            U = chol_R(rng, n)
+            mode = rng.choice(["last", "first", "one", "some", "some", "all", "none", "last2"])
+            if mode == "last":
+                d = [n - 1]
+            elif mode == "first":
+                d = [0]
+            elif mode == "one":
+                d = [rng.randrange(n)]
+            elif mode == "all":
+                d = rng.sample(range(n), n)
+            elif mode == "none":
+                d = []
+            elif mode == "last2":
+                d = [n - 1] + ([n - 2] if n >= 2 else [])
+                rng.shuffle(d)
+            else:
+                d = rng.sample(range(n), rng.randint(1, n))
+            yield {"tag": f"chol_delete_{mode}", "kind": "chol", "sub": "delete",
+                   "num": "rat" if mode in ("last", "last2", "none") else "float", "U": qmat(U), "indexes": d,
+                   "dels_as": rng.choice(["ndarray", "list", "tuple"])}
+        # (vi) cho_solve on arbitrary upper-triangular arrays (the strictly lower part is not read)
+        for _ in range(60 if quick else 500):
+            n = rng.randint(1, nmax)
+            U = chol_R(rng, n, wide=False)
+            if rng.random() < 0.3:
+                for i in range(n):
+                    if rng.random() < 0.4:
+                        U[i][i] = -U[i][i]
+            garbage = rng.random() < 0.3
+            Ug = [row[:] for row in U]
+            if garbage:
+                for i in range(n):
+                    for j in range(i):
+                        Ug[i][j] = gen.dyadic(rng, -4, 4, 2)
+            bb = [gen.dyadic(rng, -6, 6, 3) for _ in range(n)]
+            yield {"tag": "chol_solve" + ("_lower_garbage" if garbage else ""), "kind": "chol", "sub": "solve",
+                   "num": "rat", "U": qmat(Ug), "b": qlist(bb)}
+        # (vii) scipy.linalg.cholesky against the bordering recursion (the first pass of fnnls_cholesky)
+        for _ in range(40 if quick else 300):
+            n = rng.randint(1, nmax)
+            R = chol_R(rng, n)
+            rational = rng.random() < 0.5
+            A = gram_fr(R) if rational else spd_from_R(R, rng.sample(range(n), n))
+            yield {"tag": "chol_cholesky_" + ("rat" if rational else "float"), "kind": "chol", "sub": "cholesky",
+                   "num": "rat" if rational else "float", "A": qmat(A)}
+        # (viii) the solver itself through its own passive-set solves in exact arithmetic: 2x2 .. 3x3 systems
+        # A = R'R whose entering order is the natural one (b = A u, u > 0 decreasing fast enough)
+        done = 0
+        for _ in range(400 if quick else 4000):
+            if done >= (16 if quick else 150):
+                break
+            n = rng.randint(1, 4)
+            R = chol_R(rng, n)
+            A = gram_fr(R)
+            b = matvec(A, [(1 if rng.random() < 0.8 else -1) * gen.pos_dyadic(rng, 1, 4, 2) for _ in range(n)])
+            if not natural_entering_order(A, b):
+                continue  # a passive list other than [0..k) would need the root of a non-square
+            done += 1
+            yield {"tag": "chol_fnnls_rat", "kind": "chol", "sub": "fnnls", "A": qmat(A), "b": qlist(b)}
 
     LAYOUTS = ["mapper", "mapper+func", "func+mapper", "mapper+mapper", "mapper+func+mapper", "func+func+mapper",
                "func"]
@@ -736,7 +931,94 @@ class C05(PropertyCheck):
             except exc.InversionException:
                 return {"err": "InversionException"}
             return {"s": qlist(s)}
+        if kind == "chol":
+            return self._run_chol(case)
         return self._run_inversion(aa, case)
+
+    @staticmethod
+    def _as_index_container(d, how):
+        if how == "list":
+            return [int(v) for v in d]
+        if how == "tuple":
+            return tuple(int(v) for v in d)
+        return np.array([int(v) for v in d], dtype=int)
+
+    def _run_chol(self, case):
+        from scipy import linalg as slg
+
+        from autoarray.util import cholesky_funcs as cf
+
+        sub = case["sub"]
+        if sub == "seq":
+            n = len(case["b"])
+            A = typed(case["A"], "float64", (n, n))
+            b = typed(case["b"], "float64", (n,))
+            U = np.zeros((0, 0))
+            P = np.array([], dtype=int)
+            fk = case.get("first_k", 0)
+            stages = []
+
+            def stage():
+                x = slg.cho_solve((U, False), b[P]) if len(P) else np.zeros(0)
+                stages.append({"U": qmat(np.asarray(U, dtype=float)), "P": [int(v) for v in P], "x": qlist(x)})
+
+            try:
+                for t, i in enumerate(case["inserts"]):
+                    P = np.append(P, int(i))
+                    if fk and t < fk - 1:
+                        continue  # warm start: the first factor is scipy.linalg.cholesky of a k x k block
+                    if fk and t == fk - 1:
+                        U = slg.cholesky(A[P][:, P])
+                    else:
+                        U = cf.cholinsertlast(U, A[int(i)][P])
+                    stage()
+                for d in case["deletes"]:
+                    U = cf.choldeleteindexes(U, self._as_index_container(d, case.get("dels_as", "ndarray")))
+                    P = np.delete(P, [int(v) for v in d])
+                    stage()
+            except (ValueError, np.linalg.LinAlgError):
+                return {"err": "domain"}
+            return {"stages": stages}
+        if sub == "update":
+            U = np_mat(fr_mat(case["U"]))
+            x = np_vec(fr_vec(case["x"]))
+            out = cf._cholupdate(U, x)
+            return {"U": qmat(np.asarray(out, dtype=float))}
+        if sub == "insert":
+            n = len(case["U"])
+            U = np_mat(fr_mat(case["U"])) if n else np.zeros((0, 0))
+            x = np_vec(fr_vec(case["x"]))
+            try:
+                S = cf.cholinsertlast(U, x)
+            except ValueError:
+                return {"err": "domain"}
+            return {"U": qmat(np.asarray(S, dtype=float))}
+        if sub == "delete":
+            U = np_mat(fr_mat(case["U"]))
+            out = cf.choldeleteindexes(U, self._as_index_container(case["indexes"], case.get("dels_as", "ndarray")))
+            return {"U": qmat(np.asarray(out, dtype=float).reshape(len(out), len(out)))}
+        if sub == "solve":
+            U = np_mat(fr_mat(case["U"]))
+            x = slg.cho_solve((U, False), np_vec(fr_vec(case["b"])))
+            return {"x": qlist(x)}
+        if sub == "cholesky":
+            try:
+                U = slg.cholesky(np_mat(fr_mat(case["A"])))
+            except np.linalg.LinAlgError:
+                return {"err": "domain"}
+            return {"U": qmat(U)}
+        if sub == "fnnls":
+            from autoarray.util.fnnls import fnnls_cholesky
+
+            n = len(case["b"])
+            try:
+                d = fnnls_cholesky(typed(case["A"], "float64", (n, n)), typed(case["b"], "float64", (n,)))
+            except RuntimeError:
+                return {"err": "runtime"}
+            except (np.linalg.LinAlgError, ValueError):
+                return {"err": "singular"}
+            return {"d": qlist(d)}
+        raise ValueError(sub)
 
     def _build_inversion(self, aa, case):
         H, W = case["H"], case["W"]
@@ -859,6 +1141,22 @@ class C05(PropertyCheck):
             n = len(case["b"])
             return [{"op": "c05.fnnls", "A": case["A"], "b": case["b"], "tol": q(EPS * n),
                      "p_init": p_init_indices(case["p_init"])}]
+        if kind == "chol":
+            sub, num = case["sub"], case.get("num", "float")
+            if sub == "seq":
+                return [{"op": "c05.chol_seq", "num": num, "A": case["A"], "b": case["b"],
+                         "inserts": case["inserts"], "deletes": case["deletes"]}]
+            if sub == "update":
+                return [{"op": "c05.cholupdate", "num": num, "U": case["U"], "x": case["x"]}]
+            if sub == "insert":
+                return [{"op": "c05.cholinsertlast", "num": num, "U": case["U"], "x": case["x"]}]
+            if sub == "delete":
+                return [{"op": "c05.choldelete", "num": num, "U": case["U"], "indexes": case["indexes"]}]
+            if sub == "solve":
+                return [{"op": "c05.cho_solve", "num": num, "U": case["U"], "b": case["b"]}]
+            if sub == "cholesky":
+                return [{"op": "c05.cholesky", "num": num, "A": case["A"]}]
+            return [{"op": "c05.fnnls_chol", "A": case["A"], "b": case["b"], "tol": q(EPS * len(case["b"]))}]
         if kind == "recon":
             return [{"op": "c05.reconstruction", "A": case["A"], "b": case["b"], "eps": q(EPS),
                      "atol": q(1e-8), "rtol": q(1e-5),
@@ -884,6 +1182,17 @@ class C05(PropertyCheck):
         r = responses[0]
         if kind == "solver":
             return r["ok"] if "ok" in r else {"err": r["err"]}
+        if kind == "chol":
+            if "err" in r:
+                return {"err": r["err"]}
+            sub = case["sub"]
+            if sub == "seq":
+                return {"stages": r["ok"]}
+            if sub == "solve":
+                return {"x": r["ok"]}
+            if sub == "fnnls":
+                return r["ok"]
+            return {"U": r["ok"]}
         err = None
         if "err" in r:
             err = "InversionException" if r["err"] in ("singular", "degenerate", "empty", "runtime") else r["err"]
@@ -899,12 +1208,19 @@ class C05(PropertyCheck):
 
     def compare(self, case, impl_obs, model_obs, cmp: Cmp):
         kind = case["kind"]
+        if kind == "chol":
+            if model_obs.get("err") == "irrational":
+                raise Skip("a square root met by the exact model is irrational")
+            if case["sub"] == "fnnls" and model_obs.get("err") == "singular":
+                raise Skip("the entering order meets an irrational root (exact model reports singular)")
         ierr, merr = impl_obs.get("err"), model_obs.get("err")
         if ierr or merr:
             if ierr == merr:
                 cmp.exact += 1
                 return None
             return f"$.err: impl={ierr!r} model={merr!r} ({model_obs.get('why', '')})"
+        if kind == "chol":
+            return self._compare_chol(case, impl_obs, model_obs, cmp)
         if kind == "solver":
             A, b = fr_mat(case["A"]), fr_vec(case["b"])
             md = model_obs["d"]
@@ -934,9 +1250,166 @@ class C05(PropertyCheck):
                             "$.mapped_total")
         return None
 
+    # ------------------------------------------------------------------ Cholesky: comparison and oracle
+    @staticmethod
+    def _diff_mat(cmp, Ui, Um, rel, path):
+        if len(Ui) != len(Um):
+            return f"{path}: impl is {len(Ui)} rows, model {len(Um)}"
+        scale = max([abs(F(x)) for r in Um for x in r] + [F(1, 2**40)])
+        for i, (ri, rm) in enumerate(zip(Ui, Um)):
+            d = diff_vec(cmp, ri, rm, rel * scale, f"{path}[{i}]")
+            if d:
+                return d
+        return None
+
+    def _compare_chol(self, case, impl_obs, model_obs, cmp):
+        sub = case["sub"]
+        if sub == "seq":
+            A = fr_mat(case["A"])
+            ms = model_obs["stages"][max(0, case.get("first_k", 0) - 1):]
+            if len(ms) != len(impl_obs["stages"]):
+                return f"$.stages: impl has {len(impl_obs['stages'])} stages, model {len(ms)}"
+            b = fr_vec(case["b"])
+            for k, (si, sm) in enumerate(zip(impl_obs["stages"], ms)):
+                if si["P"] != sm["P"]:
+                    return f"$.stages[{k}].P: impl={si['P']} model={sm['P']}"
+                P = si["P"]
+                App = [[A[i][j] for j in P] for i in P]
+                rel = chol_tol(App)
+                if rel is None or rel > F(1, 10**5):
+                    raise Skip("ill-conditioned principal submatrix")
+                d = self._diff_mat(cmp, si["U"], sm["U"], rel, f"$.stages[{k}].U")
+                if d:
+                    return d
+                d = diff_vec(cmp, si["x"], sm["x"], rel * sol_scale(App, [b[i] for i in P], sm["x"]),
+                             f"$.stages[{k}].x")
+                if d:
+                    return d
+            return None
+        if sub == "solve":
+            U = fr_mat(case["U"])
+            n = len(U)
+            G = [[sum((U[k][i] * U[k][j] for k in range(min(i, j) + 1)), F(0)) for j in range(n)] for i in range(n)]
+            rel = chol_tol(G)
+            if rel is None or rel > F(1, 10**5):
+                raise Skip("ill-conditioned factor")
+            return diff_vec(cmp, impl_obs["x"], model_obs["x"], rel * sol_scale(G, fr_vec(case["b"]), model_obs["x"]),
+                            "$.x")
+        if sub == "fnnls":
+            A, b = fr_mat(case["A"]), fr_vec(case["b"])
+            return diff_vec(cmp, impl_obs["d"], model_obs["d"], rel_tol(A) * sol_scale(A, b, model_obs["d"]), "$.d")
+        if sub == "cholesky":
+            rel = chol_tol(fr_mat(case["A"]))
+            if rel is None or rel > F(1, 10**5):
+                raise Skip("ill-conditioned matrix")
+            return self._diff_mat(cmp, impl_obs["U"], model_obs["U"], rel, "$.U")
+        # update / insert / delete: the same float operations in the same order up to the LAPACK substitution
+        return self._diff_mat(cmp, impl_obs["U"], model_obs["U"], F(1, 10**9), "$.U")
+
+    def _oracle_chol(self, case, obs):
+        sub = case["sub"]
+        if sub == "seq":
+            if "err" in obs:
+                return False, "the factor update raised on a positive-definite system"
+            A, b = fr_mat(case["A"]), fr_vec(case["b"])
+            fk = case.get("first_k", 0)
+            want, P = [], []
+            for t, i in enumerate(case["inserts"]):
+                P = P + [int(i)]
+                if not (fk and t < fk - 1):
+                    want.append(list(P))
+            for d in case["deletes"]:
+                P = np_delete_positions(P, d)
+                want.append(list(P))
+            if [s["P"] for s in obs["stages"]] != want:
+                return False, "the passive list kept next to the factor is not the expected one"
+            for k, (s, P) in enumerate(zip(obs["stages"], want)):
+                U = s["U"]
+                if len(U) != len(P):
+                    return False, f"stage {k}: factor is {len(U)}x{len(U)} for {len(P)} passive indices"
+                e = upper_posdiag(U)
+                if e:
+                    return False, f"stage {k}: {e}"
+                App = [[A[i][j] for j in P] for i in P]
+                e = gram_matches(U, App, k, f"stage {k} (P = {P})")
+                if e:
+                    return False, e
+                if P:
+                    ok, det = self._solves(App, [b[i] for i in P], fr_vec(s["x"]))
+                    if not ok:
+                        return False, f"stage {k}: cho_solve through the factor: " + det
+            return True, ""
+        if sub == "update":
+            U, x = fr_mat(case["U"]), fr_vec(case["x"])
+            n = len(x)
+            e = upper_posdiag(obs["U"])
+            if e:
+                return False, e
+            G = gram_fr(U)
+            M = [[G[i][j] + x[i] * x[j] for j in range(n)] for i in range(n)]
+            e = gram_matches(obs["U"], M, 1, "_cholupdate: U'^T U' = U^T U + x x^T")
+            return (e is None), (e or "")
+        if sub == "insert":
+            U, x = fr_mat(case["U"]), fr_vec(case["x"])
+            n = len(U)
+            G = gram_fr(U) if n else []
+            # Schur complement in exact arithmetic: x[n] - |S12|^2 with U'S12 = x[:n]
+            S12 = []
+            for i in range(n):
+                S12.append((x[i] - sum((U[k][i] * S12[k] for k in range(i)), F(0))) / U[i][i])
+            t = x[n] - sum((v * v for v in S12), F(0))
+            if "err" in obs:
+                return (t < 0 or abs(t) < F(1, 10**9)), "cholinsertlast raised although the Schur complement is positive"
+            if t <= F(1, 10**9):
+                return True, ""  # negative / zero Schur complement: no factor exists, nothing to state
+            e = upper_posdiag(obs["U"])
+            if e:
+                return False, e
+            M = [[(G[i][j] if (i < n and j < n) else x[min(i, j)]) for j in range(n + 1)] for i in range(n + 1)]
+            e = gram_matches(obs["U"], M, 1, "cholinsertlast: S^T S = bordered matrix")
+            return (e is None), (e or "")
+        if sub == "delete":
+            U = fr_mat(case["U"])
+            keep = np_delete_positions(list(range(len(U))), case["indexes"])
+            e = upper_posdiag(obs["U"])
+            if e:
+                return False, e
+            G = gram_fr(U)
+            M = [[G[i][j] for j in keep] for i in keep]
+            e = gram_matches(obs["U"], M, len(case["indexes"]), f"choldeleteindexes (kept positions {keep})")
+            return (e is None), (e or "")
+        if sub == "solve":
+            U = fr_mat(case["U"])
+            n = len(U)
+            Uu = [[U[i][j] if j >= i else F(0) for j in range(n)] for i in range(n)]
+            G = gram_fr(Uu)
+            x, b = fr_vec(obs["x"]), fr_vec(case["b"])
+            Gabs = gram_fr([[abs(v) for v in r] for r in Uu])
+            gx = matvec(Gabs, [abs(v) for v in x])
+            Gx = matvec(G, x)
+            for i in range(n):
+                slack = F(1, 10**10) * n * (gx[i] + abs(b[i]))
+                if abs(Gx[i] - b[i]) > slack:
+                    return False, f"cho_solve: (U'U x - b)[{i}] = {float(Gx[i]-b[i])!r} (slack {float(slack):.3e})"
+            return True, ""
+        if sub == "cholesky":
+            if "err" in obs:
+                return False, "scipy.linalg.cholesky raised on a positive-definite matrix"
+            e = upper_posdiag(obs["U"])
+            if e:
+                return False, e
+            e = gram_matches(obs["U"], fr_mat(case["A"]), len(case["A"]), "cholesky")
+            return (e is None), (e or "")
+        if "err" in obs:
+            return False, f"fnnls_cholesky raised ({obs['err']}) on an SPD system"
+        A, b = fr_mat(case["A"]), fr_vec(case["b"])
+        return kkt_check(A, b, fr_vec(obs["d"]), F(EPS * len(b)))
+
     # ------------------------------------------------------------------ oracle
     def oracle(self, case, obs):
         kind = case["kind"]
+        if kind == "chol":
+            return self._oracle_chol(case, obs)
         if kind == "solver":
             if "err" in obs:
                 return False, f"fnnls_cholesky raised ({obs['err']}) on an SPD system"
@@ -1045,6 +1518,15 @@ class C05(PropertyCheck):
         kind = case["kind"]
         if "err" in obs:
             return True
+        if kind == "chol":
+            if case["sub"] == "seq":  # at least one deletion that is not the last position (runs _cholupdate)
+                cur = len(case["inserts"])
+                for d in case["deletes"]:
+                    if any(int(v) != cur - 1 - k for k, v in enumerate(sorted(d, reverse=True))):
+                        return True
+                    cur -= len(d)
+                return len(case["inserts"]) >= 2
+            return len(case.get("U", case.get("A", []))) >= 2
         if kind == "solver":
             d = fr_vec(obs["d"])
             return any(x == 0 for x in d) and any(x > 0 for x in d)
@@ -1061,7 +1543,7 @@ class C05(PropertyCheck):
         arithmetic on the input); only the exception outcome belongs to the finding — a non-optimal
         *returned* solution on the same input is still reported."""
         case = self._norm(case)
-        if case.get("fn") == "posneg":
+        if case.get("fn") == "posneg" or case.get("kind") == "chol":
             return None
         if not (isinstance(obs, dict) and obs.get("err") in ("runtime", "InversionException")):
             return None
@@ -1115,6 +1597,13 @@ class C05(PropertyCheck):
 
     def theorems_for(self, case):
         kind = case["kind"]
+        if kind == "chol":
+            return {"seq": ["C05.chol_insertlast_passive_list", "C05.chol_deleteindexes_exact",
+                            "C05.chol_cho_solve_factor", "C05.chol_carried_factor_exact"],
+                    "update": ["C05.chol_update_rank_one"], "insert": ["C05.chol_insertlast_exact"],
+                    "delete": ["C05.chol_deleteindexes_exact", "C05.chol_update_rank_one"],
+                    "solve": ["C05.chol_cho_solve_solves"], "cholesky": ["C05.chol_solver_complete_pd"],
+                    "fnnls": ["C05.chol_fnnls_main_exit_kkt", "C05.chol_terminates_exact"]}[case["sub"]]
         if kind == "solver":
             return ["C05.b_fnnls_main_exit_kkt", "C05.a_kkt_is_global_minimum", "C05.a_minimiser_unique"]
         if kind == "recon":
